@@ -17,3 +17,5 @@ def run(out, sc, tier, seed):
     n = 10000 if tier == "quick" else 80000
     run_progs(out, sc, "C03", {"gen": "progs", "n": n, "seed": seed, "surrogate_p": 0.02, "surrogate_base_p": 0.04, "fields": FIELDS,
                                "extras": ["reparse"]}, "progs")
+    from .common import run_witnesses
+    run_witnesses(out, sc, "C03", fields=FIELDS)
